@@ -510,15 +510,13 @@ namespace gtry::scl::strm
 
 	template<StreamSignal StreamT>
 	StreamT delay(StreamT&& in, size_t cycles, const RegisterSettings& settings) {
-		StreamT ret = std::forward<StreamT>(in);
-
-		if(cycles > 0)
-		{
-			for (size_t i = 0; i < cycles - 1; i++)
-				ret = regDownstreamBlocking(move(ret), settings);
-			ret = regDownstream(move(ret), settings);
-		}
-		return ret;
+		// Every stage gets a fresh stream object: re-assigning a stream variable whose signals have already been read
+		// upstream (e.g. transfer(out) inside reduceWidth) would rebind those earlier reads to the delayed signals.
+		if (cycles == 0)
+			return std::forward<StreamT>(in);
+		if (cycles == 1)
+			return regDownstream(std::forward<StreamT>(in), settings);
+		return delay(regDownstreamBlocking(std::forward<StreamT>(in), settings), cycles - 1, settings);
 	}
 
 	template<BaseSignal T>
